@@ -2334,11 +2334,21 @@ impl TxParticipant {
     }
 
     pub fn prepare(&self, request: PrepareRequest) -> PrepareVote {
-        // Use affected_key() for locking (logical keys)
-        let lock_keys: Vec<String> = request
+        // Logical keys (reported back to the coordinator with the delta)
+        let affected_keys: Vec<String> = request
             .operations
             .iter()
             .map(|op| op.affected_key().to_string())
+            .collect();
+
+        // Lock the keys the operations actually write in the store. Locking the logical
+        // names let two transactions hold "different" locks on the same stored entry
+        // (Put{key: "table:tb"} and TableInsert{table: "tb"}); aborting one of them then
+        // restored its pre-image over the other's committed write.
+        let lock_keys: Vec<String> = request
+            .operations
+            .iter()
+            .map(Transaction::storage_key)
             .collect();
 
         tracing::debug!(
@@ -2376,7 +2386,7 @@ impl TxParticipant {
 
         let delta = DeltaVector::from_sparse(
             request.delta_embedding,
-            lock_keys.into_iter().collect(),
+            affected_keys.into_iter().collect(),
             request.tx_id,
         );
 
